@@ -16,9 +16,9 @@ CHECKS = {
          'Same exhaustive history space as C02; every distinct on-disk state is read without the library (sqlite3, slices, zlib, hashlib) and must satisfy the index/pack/loose invariants and reproduce every model object. A second pass explores sequential histories through two handles (a handle with a pinned index snapshot running maintenance operations after the other handle wrote), where operations may refuse but no acknowledged object may be lost.',
          'Same bounds as C02; stdlib sqlite3/zlib stand in for the CLI tools of the documented recovery script.', '5 C03, 2.2'),
  'C05': ('crashx', 'fault_enumeration',
-         'exhaustive crash-point enumeration: kill image at every mutating I/O call boundary of every operation variant, on the real library',
-         'One instrumented run per scenario yields the OS-visible image before every mutating call (and after return); every image is checked raw (sqlite3+zlib) and through a fresh handle. Exhaustive over boundaries for the listed operation variants and pre-states.',
-         'Kills inside one write(2) or inside SQLite are not enumerated; SQLite WAL recovery trusted; tmpfs semantics.', '5 C05, 3 E3'),
+         'exhaustive crash-point and torn-write enumeration: kill image at every mutating I/O call boundary, and at three cut points inside every library write, of every operation variant, on the real library',
+         'One instrumented run per scenario yields the OS-visible image before every mutating call (and after return); every image is checked raw (sqlite3+zlib) and through a fresh handle. Exhaustive over boundaries for the listed operation variants and pre-states. A second instrumented run per scenario yields, for every write of >= 2 bytes to a pack / loose / sandbox file, the images in which only 1 byte, half, or all but one byte of that write reached the file (torn writes).',
+         'Kills inside one write(2) only at those three cut points; kills inside SQLite are not enumerated; SQLite WAL recovery trusted; tmpfs semantics.', '5 C05, 3 E3'),
  'C06': ('crashx', 'fault_enumeration',
          'exhaustive crash-point enumeration with the adversarial power-loss image (only last-fsynced bytes of every regular file survive)',
          'Same boundaries as C05; each image keeps only the bytes present at the last fsync of each inode (tracked through renames and hard links), while directory operations and committed SQLite transactions survive; same oracle as C05.',
